@@ -318,16 +318,5 @@ func parallelJoinOK(fn, g *ssa.Function) bool {
 
 // challengeInputs: the receiver fields and parameters that flow into any hash call of fn.
 func challengeInputs(fn *ssa.Function) map[string]bool {
-	w := core.NewDepWalker(fn, false)
-	for _, g := range core.WithClosures(fn) {
-		for _, call := range core.Calls(g) {
-			if core.CallIs(call, core.HashFuncs...) {
-				for _, a := range call.Common().Args {
-					w.Walk(a)
-				}
-			}
-		}
-	}
-	delete(w.Out, "challenge")
-	return w.Out
+	return core.HashInputs(fn, 3)
 }
